@@ -488,6 +488,7 @@ func laws(sel int, in, got []int64, law func(lsel int, lin []int64, sig string))
 		law(143, lin, sigStuckChild)
 		law(144, lin, sigOpenChild)
 		law(145, lin, "") // end state: no queue left Closing without a PodGroup
+		law(146, lin, "") // end state: the catch-up rounds really drained everything (145's guard is not vacuous)
 	}
 	if sel == 3 { // PodGroup events before the queue is listed: laws against the PodGroups that really exist
 		law(131, lin, "")
@@ -902,6 +903,52 @@ func genQuiescent(r *vh.Rng, i int) (in []int64, desc map[string]any) {
 		} else {
 			shape = "random/lagged"
 		}
+		// a request that can never succeed (an Open under a parent that stays closed) must be given up,
+		// otherwise the work queue never drains and the end state is not caught up
+		maxrq = int64(vh.Pick(r, []int{3, 15}))
+		// PodGroups come and go (only with an up-to-date lister: with lag, a PodGroup's Sync computed from a
+		// lister that still shows the queue Open writes nothing and the queue stays Closing — stale-lister class)
+		nextPG := int64(1)
+		var livePG []int64            // in the store and indexed
+		var pend13, pend14 [][2]int64 // split deletions: the half that is still to come
+		pgEvent := func() {
+			if !fresh {
+				return
+			}
+			x := qs[r.Range(1, len(qs)-1)].id
+			switch k := r.Intn(8); {
+			case k < 3 || len(livePG) == 0:
+				add(2, nextPG, x, int64(r.Range(1, 5)))
+				livePG = append(livePG, nextPG, x)
+				nextPG++
+			case k == 3:
+				j := r.Intn(len(livePG)/2) * 2
+				add(3, livePG[j], livePG[j+1], int64(r.Range(1, 5))) // phase update, same queue
+			case k < 6:
+				j := r.Intn(len(livePG)/2) * 2
+				add(4, livePG[j], 0, 0) // store and handler together
+				livePG = append(livePG[:j], livePG[j+2:]...)
+			default:
+				j := r.Intn(len(livePG)/2) * 2
+				pg, q := livePG[j], livePG[j+1]
+				livePG = append(livePG[:j], livePG[j+2:]...)
+				if r.Chance(2, 3) {
+					add(13, pg, 0, 0) // the store first, the handler later
+					pend14 = append(pend14, [2]int64{pg, q})
+				} else {
+					add(14, pg, q, 0) // the handler first (the object is still in the store)
+					pend13 = append(pend13, [2]int64{pg, q})
+				}
+			}
+			if r.Chance(1, 2) && len(pend14) > 0 {
+				add(14, pend14[0][0], pend14[0][1], 0)
+				pend14 = pend14[1:]
+			}
+			if r.Chance(1, 2) && len(pend13) > 0 {
+				add(13, pend13[0][0], 0, 0)
+				pend13 = pend13[1:]
+			}
+		}
 		sync := func() {
 			if fresh {
 				for _, x := range qs {
@@ -912,6 +959,10 @@ func genQuiescent(r *vh.Rng, i int) (in []int64, desc map[string]any) {
 			}
 		}
 		for k := r.Range(3, 10); k > 0; k-- {
+			if r.Chance(1, 2) {
+				pgEvent()
+				sync()
+			}
 			x := qs[r.Range(1, len(qs)-1)].id
 			C(x, int64(r.Range(1, 2)))
 			sync()
@@ -936,8 +987,14 @@ func genQuiescent(r *vh.Rng, i int) (in []int64, desc map[string]any) {
 				sync()
 			}
 		}
+		for _, x := range pend14 { // every split deletion is completed before the catch-up
+			add(14, x[0], x[1], 0)
+		}
+		for _, x := range pend13 {
+			add(13, x[0], 0, 0)
+		}
 	}
-	for round := 0; round < 4; round++ { // catch up: every queue delivered after every processed request
+	for round := 0; round < 6; round++ { // catch up: every queue delivered after every processed request
 		for d := 0; d < 6; d++ {
 			for _, x := range qs {
 				L(x.id)
